@@ -87,8 +87,34 @@ inductive Op where
   | addSymlink (iso : Option Path) (rrName : Bytes) (rrTarget : Bytes) (joliet : Option Path)
       (udf : Option Path) (udfTarget : Bytes)
   | setHidden (ns : NS) (p : Path) (h : Bool)
+  | reopen
 
 def optAll (l : List (Option (NS × Path))) : List (NS × Path) := l.filterMap id
+
+/-- writing and opening the image again: an empty file has no data extent, so an ISO9660 or Joliet name of
+zero-length content can no longer be recognised as a link of anything — after a reopen each such name is a
+content of its own.  UDF names of one content share a File Entry on disc and therefore stay together.
+Nothing else changes. -/
+def reopenState (s : State) : State :=
+  let step (acc : List Entry × List Blob × Nat × List (Nat × Nat)) (e : Entry) :
+      List Entry × List Blob × Nat × List (Nat × Nat) :=
+    let (es, bs, nxt, udfMap) := acc
+    match e.node with
+    | .file b =>
+      match s.blobs.find? (·.id = b) with
+      | some bl =>
+        if bl.len = 0 then
+          if e.ns = .udf then
+            match udfMap.find? (·.1 = b) with
+            | some (_, nb) => (es ++ [{ e with node := .file nb }], bs, nxt, udfMap)
+            | none => (es ++ [{ e with node := .file nxt }], bs ++ [{ id := nxt, cid := bl.cid, len := 0 }], nxt + 1,
+                       udfMap ++ [(b, nxt)])
+          else (es ++ [{ e with node := .file nxt }], bs ++ [{ id := nxt, cid := bl.cid, len := 0 }], nxt + 1, udfMap)
+        else (es ++ [e], bs, nxt, udfMap)
+      | none => (es ++ [e], bs, nxt, udfMap)
+    | _ => (es ++ [e], bs, nxt, udfMap)
+  let (es, newBlobs, nxt, _) := s.entries.foldl step ([], [], s.next, [])
+  { s with entries := es, blobs := s.blobs.filter (fun b => b.len ≠ 0) ++ newBlobs, next := nxt }
 
 def step (s : State) : Op → Option State
   | .addFp a =>
@@ -163,6 +189,7 @@ def step (s : State) : Op → Option State
     match s.find ns p with
     | some _ => some { s with entries := s.entries.map fun x => if x.ns = ns ∧ x.path = p then { x with hidden := h } else x }
     | none => none
+  | .reopen => some (reopenState s)
 
 def run (s : State) : List Op → Option State
   | [] => some s
@@ -264,6 +291,7 @@ def parseOp (tok : String) : Option Op :=
       (← optPath f "j") (← optPath f "u") (← ofHex ((kv f "ut").getD "-")))
   | "hide" :: f => do pure (.setHidden (← parseNS (← kv f "ns")) (← parsePath (← kv f "p")) true)
   | "unhide" :: f => do pure (.setHidden (← parseNS (← kv f "ns")) (← parsePath (← kv f "p")) false)
+  | ["reopen"] => some .reopen
   | _ => none
 
 /-- `spec <rr:0|1> op op …` → the view, or `impossible@k` when op k cannot be applied -/
